@@ -305,7 +305,16 @@ struct Hist
       else
         do_new(r);
     }
+    // grow registers 0 and 1 to several segments (so that crops starting in a later segment / on a knot are common)
+    for (int r = 0; r < 2; ++r) {
+      const int extra = rng.below(4);
+      for (int k = 0; k < extra; ++k) {
+        do_new(2);
+        do_concat(r, 2, rng.below(6) == 0);
+      }
+    }
     battery(0);
+    battery(1);
     const int nops = 4 + rng.below(9);
     for (int k = 0; k < nops; ++k) {
       const int r = rng.below(NR), a = rng.below(NR);
@@ -375,7 +384,7 @@ int main(int argc, char ** argv)
   }
   OPS = std::fopen(argv[1], "w");
   if (!OPS) return 2;
-  Rng rng(seed_from_env() * 0x9e3779b97f4a7c15ULL + 12);
+  Rng rng((seed_from_env() << 32) ^ 0xC12C0FFEEULL);
   int f[4];
   detect_flags(f);
   {
